@@ -639,6 +639,39 @@ fn specs(quick: bool) -> Vec<ConvSpec> {
             sparse: true,
         });
     }
+    // a long pipelined history of statement cycles (several read buffers' worth of commands): the
+    // stream ends after every byte count, and every operation fails, also late in the history,
+    // after the read buffer has been refilled, shifted and reused many times
+    for (ur, mname) in [(usize::MAX, "whole reads"), (509usize, "509-byte reads")] {
+        let cycles = if quick { 260 } else { 700 };
+        let blk = exec_block(&[ExecParam { ty: 0xfc, unsigned: false, wire: None, long: true }], true);
+        let mut cmds = Vec::new();
+        let mut progs = Vec::new();
+        for i in 0..cycles {
+            let id = (i % 5 + 1) as u32;
+            cmds.push(ClientCmd::new(with_byte(COM_STMT_PREPARE, format!("id={} p=1 c=1", id).as_bytes())));
+            cmds.push(ClientCmd::new(cmd_long(id, 0, &vec![b'a' + (i % 26) as u8; i % 9])));
+            cmds.push(ClientCmd::new(cmd_execute(id, 0, 1, &blk)));
+            progs.push(Arc::new(programs[i % 3].1.clone()));
+            cmds.push(ClientCmd::new(cmd_close(id)));
+            if i % 7 == 3 {
+                cmds.push(ping());
+            }
+        }
+        cmds.push(quit());
+        v.push(ConvSpec {
+            label: format!("{} pipelined cycles of prepare + long data + execute + close ({}) + quit", cycles, mname),
+            cmds,
+            progs,
+            fail_at: None,
+            auth_reject: false,
+            uniform_read: ur,
+            write_cap: usize::MAX,
+            cuts: vec![],
+            lockstep: false,
+            sparse: false,
+        });
+    }
     // multi-packet requests: end of stream and faults around every packet header
     for size in if quick { vec![MAXP + 9] } else { vec![MAXP - 1, MAXP, MAXP + 9, 2 * MAXP, 2 * MAXP + 9] } {
         let mut text = vec![b'w'; size - 1];
